@@ -113,7 +113,7 @@ func (area) Generate(r *rng.R, thorough bool, index int) json.RawMessage {
 			o.Dt = []int{1, 5, 10, 20, 40, 101}[r.Intn(6)]
 		}
 		switch x := r.Intn(100); {
-		case x < 20:
+		case x < 17:
 			o.K = "open"
 			o.Access = 1 + r.Intn(3)
 			if r.Chance(4) {
@@ -147,13 +147,13 @@ func (area) Generate(r *rng.R, thorough bool, index int) json.RawMessage {
 				add(op{K: "openconfirm", C: o.C, O: o.O, F: o.F, N: 1})
 			}
 			continue
-		case x < 27:
+		case x < 22:
 			o.K = "openconfirm"
 			faults(&o)
-		case x < 37:
+		case x < 31:
 			o.K = "close"
 			faults(&o)
-		case x < 41:
+		case x < 35:
 			o.K = "downgrade"
 			o.Access = 1 + r.Intn(3)
 			if r.Chance(5) {
@@ -162,31 +162,31 @@ func (area) Generate(r *rng.R, thorough bool, index int) json.RawMessage {
 			faults(&o)
 		case x < 54:
 			o.K = "lock"
-			o.LType = 1 + r.Intn(4)
+			o.LType = []int{1, 2, 2, 3, 4, 2}[r.Intn(6)]
 			if r.Chance(3) {
 				o.LType = 0
 			}
 			rangeOf(&o)
 			o.New = r.Chance(6)
 			faults(&o)
-		case x < 59:
+		case x < 60:
 			o.K = "lockt"
 			o.LType = 1 + r.Intn(4)
 			rangeOf(&o)
 			if r.Chance(5) {
 				o.FhMode = 1 + r.Intn(3)
 			}
-		case x < 65:
+		case x < 67:
 			o.K = "locku"
 			o.LType = 1
 			rangeOf(&o)
 			faults(&o)
-		case x < 68:
+		case x < 69:
 			o.K = "release_lockowner"
-		case x < 76:
+		case x < 77:
 			o.K = "io"
 			o.Kind = r.Intn(3)
-			o.SidMode = []int{0, 0, 0, 8, 8, 4, 5, 1, 2, 3, 6, 7}[r.Intn(12)]
+			o.SidMode = []int{0, 0, 0, 0, 8, 8, 8, 4, 5, 1, 2, 3, 6, 7}[r.Intn(14)]
 			if r.Chance(8) {
 				o.IoErr = 1
 			}
@@ -359,6 +359,13 @@ func callsTerm(calls []leafCall) string {
 	return g.List(l)
 }
 
+// recordDead records an event after which the program cannot be inspected any
+// more (a panic or a hang may have left its lock held): no dump delta.
+func (x *exec) recordDead(ev, reply string, calls []leafCall) {
+	x.obs = append(x.obs, g.App("mkIobs", ev, reply, g.N(0), callsTerm(calls), "[]"))
+	x.info.Events++
+}
+
 func (x *exec) record(ev, reply string, hash uint64, calls []leafCall) {
 	d := nfs.VerifDump40(x.program)
 	dt, problems := dumpTerm(d, &x.prevDump)
@@ -393,7 +400,7 @@ func (x *exec) finish(p *pendingTask, ev string) {
 	calls := t.drainCalls()
 	if t.panicked != nil {
 		x.info.Outs["panic"]++
-		x.record(ev, "RpPanic", 0, calls)
+		x.recordDead(ev, "RpPanic", calls)
 		x.stop = true
 		return
 	}
@@ -442,7 +449,7 @@ func (x *exec) observe(p *pendingTask, ev string) {
 		x.blocked = append(x.blocked, p)
 	case wHang:
 		x.info.Outs["hang"]++
-		x.record(ev, "RpHang", 0, p.t.drainCalls())
+		x.recordDead(ev, "RpHang", p.t.drainCalls())
 		x.stop = true
 	}
 }
@@ -519,7 +526,7 @@ func (x *exec) releaseParked(i int) {
 		x.finish(p, ev())
 	default:
 		x.info.Outs["hang"]++
-		x.record(ev(), "RpHang", 0, p.t.drainCalls())
+		x.recordDead(ev(), "RpHang", p.t.drainCalls())
 		x.stop = true
 		return
 	}
@@ -539,7 +546,7 @@ func (x *exec) releaseParked(i int) {
 			x.observe(b, x.reqEvent(b.t, b.s))
 		default:
 			x.info.Outs["hang"]++
-			x.record(x.reqEvent(b.t, b.s), "RpHang", 0, nil)
+			x.recordDead(x.reqEvent(b.t, b.s), "RpHang", nil)
 			x.stop = true
 		}
 	}
@@ -689,14 +696,14 @@ func (x *exec) run(o op) {
 			return // nothing to operate on (one in six goes out with a made-up state ID)
 		}
 		// lock-owners that hold a lock state ID for the chosen pair
-		if o.K == "locku" || o.K == "lock" || (o.K == "io" && o.SidMode == 8) {
+		if o.K == "locku" || o.K == "lock" || o.K == "lockt" || (o.K == "io" && o.SidMode == 8) {
 			var ls []int
 			for li, lo := range c.lowners {
 				if _, ok := lo.sids[lockKey{o.O % 3, o.fileID}]; ok {
 					ls = append(ls, li)
 				}
 			}
-			if len(ls) > 0 && (o.K != "lock" || o.L%2 == 0) {
+			if len(ls) > 0 && ((o.K != "lock" && o.K != "lockt") || o.L%2 == 0) {
 				o.L = ls[o.L%len(ls)]
 			} else if o.K == "locku" {
 				// any lock state ID of the client
